@@ -111,7 +111,8 @@ impl<'a> SdesChunk<'a> {
                 ret.items.push(item);
             }
 
-            while offset < data.len() && data[offset] == 0 {
+            // only the zero fill up to the next 32-bit boundary belongs to this chunk
+            while offset < data.len() && offset % 4 != 0 && data[offset] == 0 {
                 offset += 1;
             }
         }
